@@ -39,6 +39,7 @@ class TLCResult:
     workdir: Path | None = None
     cmd: str = ""
     raw_tail: str = ""
+    stdout: str = ""              # everything TLC wrote (long PrintT values are wrapped over several lines)
 
 
 def tla_value(v) -> str:
@@ -123,6 +124,7 @@ def run_tlc(module: str, cfg: str, *, overrides: dict | None = None, workers: in
     out = p.stdout
     res = TLCResult(ok=False, wall_s=wall, out_dir=out_dir, workdir=work, cmd=" ".join(cmd[cmd.index("tlc2.TLC"):]))
     res.raw_tail = out[-4000:]
+    res.stdout = out
     m = re.search(r"(\d+) states generated, (\d+) distinct states found", out)
     if m:
         res.generated, res.distinct = int(m.group(1)), int(m.group(2))
